@@ -2016,6 +2016,31 @@ func ruleG37(r *Run) {
 							}
 						}
 					}
+					// make + copy keeps the counts only if the new slice is LONGER: the reallocation is reached
+					// under len(field) < n, not under != (a shorter list would cut off counters of calls in flight)
+					if keeps {
+						if c, ok := src.(*ast.CallExpr); ok && IsBuiltin(info, c, "make") {
+							grows := false
+							isLen := func(e ast.Expr) bool {
+								lc, ok := ast.Unparen(e).(*ast.CallExpr)
+								return ok && IsBuiltin(info, lc, "len") && len(lc.Args) == 1 && fieldOf(info, lc.Args[0]) == fv
+							}
+							for _, f := range factsWithSwitch(parentMap(fd.Body), as) {
+								if b, ok := ast.Unparen(f.e).(*ast.BinaryExpr); ok {
+									switch {
+									case !f.neg && b.Op == token.LSS && isLen(b.X), !f.neg && b.Op == token.GTR && isLen(b.Y):
+										grows = true
+									case f.neg && b.Op == token.GEQ && isLen(b.X), f.neg && b.Op == token.LEQ && isLen(b.Y):
+										grows = true
+									}
+								}
+							}
+							if !grows {
+								r.Viol(fmt.Sprintf("reallocation of %s in %s #%d", fv.Name(), p.DeclName(fd), k), as.Pos(), fmt.Sprintf("%s is replaced by a copy of another length without a test that the new one is LONGER (len(%s) < n): when the server list shrinks the counters of calls that are still in flight are cut off - their decrement indexes past the end (panic with the lock held) or, after the list has grown again, drives a fresh counter to -1", fv.Name(), fv.Name()))
+								continue
+							}
+						}
+					}
 					r.Check(keeps, fmt.Sprintf("reallocation of %s in %s #%d", fv.Name(), p.DeclName(fd), k), as.Pos(), "the old counts are carried over", fmt.Sprintf("%s is replaced by `%s` without copying what it held: the calls that are in flight at that moment have been counted in the old slice and will decrement the new one - their servers' counts become -1 and never return to zero, and the balancer prefers them for ever", fv.Name(), types.ExprString(as.Rhs[i])))
 				}
 				return true
